@@ -148,6 +148,17 @@ pub fn check(t: &Trace<'_>, out: &mut CaseOut) -> bool {
                 }
                 let slot = owed.iter_mut().find(|o| o.written_on != Some(*conn));
                 if last_done.is_some_and(|(c, a)| c != *conn && a == got) && !slot.as_ref().is_some_and(|o| (o.kind, o.pid, o.reason) == got) {
+                    // ... harmless and allowed as long as the client itself still counted it as
+                    // unsent when that connection ended (last snapshot taken on it: the owed-control
+                    // queue holds it in a state other than "sent")
+                    let c0 = last_done.unwrap().0;
+                    let end = t.conns.iter().find(|x| x.idx == c0).map(|x| x.ev_end).unwrap_or(usize::MAX);
+                    let still_owed = t.log.probes.iter().rev().find(|p| p.ev <= end && p.snap.is_some()).and_then(|p| p.snap.as_ref()).is_some_and(|sn| sn.tx.control.iter().any(|e| e.kind == got.0 && e.packet_id == got.1 && !matches!(e.state, minimq::verif::VerifSend::Sent)));
+                    if !still_owed {
+                        out.violations.push(viol("C04", "C04/ack-repeated-after-it-was-sent", format!("conn {} event {}: acknowledgement type {} id {} was written and flushed on connection {} and was no longer owed when that connection ended, yet it is sent again here although the broker did not repeat the delivery", conn, ev, got.0, got.1, c0)));
+                        broken = true;
+                        continue;
+                    }
                     out.count("acks_resent_on_next_connection", 1);
                     last_done = None;
                     continue;
